@@ -25,8 +25,12 @@ Definition kw_error : list ascii := chars "error ".
 Definition kw_string : list ascii := chars "string ".
 Definition re_kw (kw l : list ascii) : option (list ascii) := prefix_rest kw (lstrip_l l).
 
-(* ---- value.encode(utf-8).decode(unicode_escape) for ASCII text and the simple escapes ------------------- *)
-(* None: outside the modelled fragment (octal / \x / \u / \N escapes, a lone trailing backslash, non-ASCII) *)
+(* ---- asm.decode_escapes for ASCII text and the simple escapes ------------------------------------------- *)
+(* the code doubles an active backslash in front of a character above U+00FF and computes
+   text.encode('latin-1','backslashreplace').decode('unicode_escape'); on ASCII text both steps before the decoder are the identity.
+   None: outside the modelled fragment (octal / \x / \u / \U / \N escapes, unrecognised escapes, a lone trailing backslash, non-ASCII);
+   the whole expression on arbitrary text is modelled in Proofs/StringUnicode.v (decode_escapes_x, agreeing with this function where it
+   is defined: C10_string_extension_conservative) *)
 Definition simple_escape (c : ascii) : option ascii :=
   let n := zc c in
   if n =? 110 then Some (ascii_of_N 10)        (* \n *)
